@@ -595,6 +595,7 @@ class LoopMixin:
                 if vals and not (vals[0].const is not None and vals[0].const.v in (0, -1)):
                     raise EngineError("pop only modelled for index 0 / -1")
                 if vals and vals[0].const.v == 0:
+                    self.needs_plus_instances = True  # elements move down by one: facts about x[q] are needed at q + 1
                     ret = SV(cur.t.elem, cur.z[0])
                     new = SV(cur.t, z3.SubSeq(cur.z, 1, n - 1))
                 else:
